@@ -100,7 +100,10 @@ def truth_project(work):
         ret = 'void' if cc else 'int'
         body = '{ }' if cc else '{ return 0; }'
         ms.append('  %s %s %s() %s' % (vis, ret, name, body))
-    src = 'class Truth {\n' + '\n'.join(ms) + '\n}\n'
+    # ... and two textually identical LONG methods (parameter lists of 2.5 KB, bodies of 3 KB) in two nested classes, at
+    # lines 11 and 14: both public, both named alpha, both void
+    longm = '    public void alpha(%s) { %s }' % (', '.join('int p%d' % k for k in range(300)), ' '.join('step(p%d, "%s");' % (k, 'x' * 20) for k in range(90)))
+    src = 'class Truth {\n' + '\n'.join(ms) + '\n  static class In1 {\n' + longm + '\n  }\n  static class In2 {\n' + longm + '\n  }\n}\n'
     files = [('t/Truth.java', src.encode())]
     proj = work + '/truth'
     qrun.write_project(proj, files)
@@ -125,6 +128,10 @@ def truth_expected(formula):
         if eval(f, {}, dict(A=bool(a), B=bool(b), C=bool(cc))):
             want[('Truth.java', i + 2)] += 1
             want[('Shared.java', i + 2)] += 1
+    if eval(f, {}, dict(A=True, B=True, C=True)):
+        for fn in ('Truth.java', 'Shared.java'):
+            want[(fn, 11)] += 1
+            want[(fn, 14)] += 1
     return want
 
 
@@ -1181,6 +1188,34 @@ def check_c15(c, result):
                     break
             if bad:
                 result.violations.append(payload_replay('C15', 'output row value does not match its SELECT item', [t], repr(bad)[:400], c.files))
+                break
+    # rows whose values are LISTS handed out by model objects (the @param texts of a Javadoc), many results at once:
+    # each row holds its own entity's list, and the list-valued accessor next to a single-valued one changes nothing
+    import objview
+    docq = [('dq0', 'FROM method_declaration AS x SELECT x.getDoc().GetCommentParam(), x.getName()'),
+            ('dq1', 'FROM method_declaration AS x SELECT x.getDoc().GetCommentReturn(), x.getDoc().GetCommentParam(), x.getDoc().GetCommentParam()'),
+            ('dq2', 'FROM class_declaration AS x SELECT x.getDoc().GetCommentParam(), x.getDoc().GetCommentAuthor()')]
+    rdq, _, _ = c.run(docq)
+    for qid, t in docq:
+        oc, payload = rdq.get(qid, ('missing', ''))
+        if oc != 'ok':
+            continue
+        try:
+            d = json.loads(payload)
+        except Exception:
+            continue
+        kind = 'method_declaration' if qid != 'dq2' else 'class_declaration'
+        cols = [i for i, part in enumerate(t.split(' SELECT ')[1].split(', ')) if 'GetCommentParam' in part]
+        for e, row in zip(d.get('result_set') or [], d.get('output') or []):
+            cands = byloc.get((e['file'], e['line'], e['code'], kind), [])
+            exps = []
+            for n in cands:
+                dd = objview._doc(n['doc']) if n.get('doc', '~') != '~' else None
+                exps.append([x for nm, x in (dd['tags'] if dd else []) if nm == 'param'])
+            c.stats['c15_list_rows_checked'] += 1
+            if cands and isinstance(row, list) and any(row[i] not in exps for i in cols):
+                result.violations.append(payload_replay('C15', 'a list-valued row value is not the list of the entity of its combination', [t],
+                                                        'entity %s:%d; row %r; expected one of %r' % (e['file'], e['line'], row, exps[:2]), c.files))
                 break
     # output modes through the real CLI: text / json / output-file / verbose describe the same locations
     n_cli = 6 if c.tier == 'quick' else 40
